@@ -13,7 +13,6 @@ import (
 	"qsimharness/core"
 	"qsimharness/ref"
 	"zzsim"
-	"zzsim/simnet"
 )
 
 // C12: one authenticated client cannot stop a service from serving others,
@@ -234,7 +233,7 @@ func c12frames(st *c12state, cat string, r *rand.Rand) [][]byte {
 		var out [][]byte
 		for i := 0; i < 1+r.IntN(3); i++ {
 			s, o := target()
-			out = append(out, ref.NewFrame(pick32(ref.Call, ref.Call, ref.Post), s, o, act, id(), regPayload()).Encode())
+			out = append(out, ref.NewFrame(uint8(pick32(ref.Call, ref.Call, ref.Post)), s, o, act, id(), regPayload()).Encode())
 		}
 		return out
 	case "generic":
@@ -256,7 +255,7 @@ func c12frames(st *c12state, cat string, r *rand.Rand) [][]byte {
 			b.U32(o)
 			p = b.Bytes()
 		}
-		return [][]byte{ref.NewFrame(pick32(ref.Call, ref.Post), s, o, act, id(), p).Encode()}
+		return [][]byte{ref.NewFrame(uint8(pick32(ref.Call, ref.Post)), s, o, act, id(), p).Encode()}
 	case "terminate":
 		// documented removal: terminate an object other than the service's main object
 		if len(w.ObjIDs) < 2 {
@@ -274,7 +273,7 @@ func c12frames(st *c12state, cat string, r *rand.Rand) [][]byte {
 		if r.IntN(2) == 0 {
 			p = garbage()
 		}
-		return [][]byte{ref.NewFrame(pick32(ref.Call, ref.Post), st.probeSvc, o, act, id(), p).Encode()}
+		return [][]byte{ref.NewFrame(uint8(pick32(ref.Call, ref.Post)), st.probeSvc, o, act, id(), p).Encode()}
 	case "dir":
 		act := 100 + uint32(r.IntN(10))
 		var b ref.Buf
@@ -303,7 +302,7 @@ func c12frames(st *c12state, cat string, r *rand.Rand) [][]byte {
 		if r.IntN(5) == 0 {
 			p = garbage()
 		}
-		return [][]byte{ref.NewFrame(pick32(ref.Call, ref.Post), st.dirID, 1, act, id(), p).Encode()}
+		return [][]byte{ref.NewFrame(uint8(pick32(ref.Call, ref.Post)), st.dirID, 1, act, id(), p).Encode()}
 	case "type":
 		s, o := target()
 		return [][]byte{ref.NewFrame(uint8(1+r.IntN(8)), s, o, pick32(0, 1, 2, 5, 6, ActEcho, ActNoarg, 101, 9999), id(), garbage()).Encode()}
@@ -370,18 +369,19 @@ func (c12) Check(c *core.Case, env *core.Env, res zzsim.Result, v *core.Verdict)
 	}
 	hs := env.History()
 	// why would an operation be stuck? look at what the server's goroutines wait for
+	var where []string
 	cause := func() string {
 		inWrite, inLock := 0, 0
-		var where []string
+		where = nil
 		for _, g := range env.Alive {
 			if g.Node != "server" {
 				continue
 			}
-			if g.Site == "net.Write.blocked" {
+			if strings.HasPrefix(g.Site, "net.Write.blocked") {
 				inWrite++
 				where = append(where, g.Name+"@"+g.Site)
 			}
-			if g.Site == "sync.Mutex.Lock" || g.Site == "sync.RWMutex" {
+			if strings.HasPrefix(g.Site, "sync.Mutex.Lock") || strings.HasPrefix(g.Site, "sync.RWMutex") {
 				inLock++
 				where = append(where, g.Name+"@"+g.Site)
 			}
@@ -401,8 +401,9 @@ func (c12) Check(c *core.Case, env *core.Env, res zzsim.Result, v *core.Verdict)
 		if h.Ret == 0 {
 			switch {
 			case strings.HasPrefix(h.Kind, "probe"):
-				bad("probe-unanswered/"+cause(), "after the hostile client's %d frames (finale %d) a fresh client's request was never answered: %s", st.sent, c.P("finale", 0), h)
-			case h.Kind == "hostile" && c.P("finale", 0) == 1:
+				cs := cause()
+				bad("probe-unanswered/"+cs, "after the hostile client's %d frames (finale %d) a fresh client's request was never answered: %s\n  blocked server goroutines: %s", st.sent, c.P("finale", 0), h, strings.Join(where, ", "))
+			case h.Kind == "hostile":
 				// the hostile client itself is stuck writing: its own problem
 			default:
 				bad("hang/"+h.Kind+"/"+cause(), "operation never returned: %s", h)
